@@ -182,6 +182,12 @@ func H_C14_namedTypes() {
 		{`{{ who | up | rep: 2 }}`, `{{ rep(up(who), 2) }}`},
 		{`{{ who | rep(2) }}`, `{{ rep(who, 2) }}`},
 		{`{{ describe: lvl }}`, `{{ describe(lvl) }}`},
+		// typed nil values (nil slice, nil map, nil pointer) are valid arguments when piped too
+		{`{{ nilSlice | joinN("-") }}`, `{{ joinN(nilSlice, "-") }}`},
+		{`{{ nilSlice | joinN: "-" }}`, `{{ joinN(nilSlice, "-") }}`},
+		{`{{ nilMap | sizeM }}`, `{{ sizeM(nilMap) }}`},
+		{`{{ nilPtr | descP("n:") }}`, `{{ descP(nilPtr, "n:") }}`},
+		{`{{ nilSlice | joinN("-") | up }}`, `{{ up(joinN(nilSlice, "-")) }}`},
 		{`{{ pa | takesB }}`, `{{ takesB(pa) }}`},
 	}
 	f := ndChoice("form", len(forms))
@@ -196,6 +202,20 @@ func H_C14_namedTypes() {
 		vars.Set("up", func(s string) string { return "U" + s })
 		vars.Set("rep", func(s string, n int) string { return s + "x" + ndItoa(n) })
 		vars.Set("takesB", func(p *c06Inner) string { return "B" })
+		var ns []string
+		var nm map[string]int
+		var np *c14Recv
+		vars.Set("nilSlice", ns)
+		vars.Set("nilMap", nm)
+		vars.Set("nilPtr", np)
+		vars.Set("joinN", func(parts []string, sep string) string { return "[" + strings.Join(parts, sep) + "]" })
+		vars.Set("sizeM", func(m map[string]int) string { return "S" + ndItoa(len(m)) })
+		vars.Set("descP", func(p *c14Recv, pre string) string {
+			if p == nil {
+				return pre + "nil"
+			}
+			return pre + p.tag
+		})
 		return vars
 	}
 	set := hxSet([]Option{WithSafeWriter(nil)}, "/s.jet", forms[f][0], "/p.jet", forms[f][1])
